@@ -1034,7 +1034,8 @@ class VectorSerializer(Generic[T, T_NP], TypeSerializer[list[T], np.object_]):
         return [self._element_serializer.read(stream) for _ in range(length)]
 
     def read_numpy(self, stream: CodedInputStream) -> np.object_:
-        return np.object_(self.read(stream))  # pyright: ignore [reportReturnType]
+        # np.object_(a_list) would turn the list into an ndarray
+        return cast(np.object_, self.read(stream))
 
 
 TKey = TypeVar("TKey")
